@@ -47,7 +47,15 @@ def _fill(n, i):
     return bytes(((i * 131 + j * 29 + 7) & 0xFF) for j in range(n))
 
 
-def encode(ks, cs, wrap):
+BIGTICK = 2200000000    # one model tick > 2^31 ns: clock differences do not fit in an int
+
+
+def scale_of(ks, cs, ring):
+    """deterministic: every third case is written with clocks seconds apart"""
+    return BIGTICK if (len(ks) * 7 + sum(cs) + ring) % 3 == 0 else 1
+
+
+def encode(ks, cs, wrap, scale=1):
     """One byte string per event.  Every event that may carry a payload has
     its (1-based) input position in it, so all such events differ bytewise.
     The region markers are the real ones: OU[ / OU] without payload.
@@ -55,7 +63,7 @@ def encode(ks, cs, wrap):
     n = len(ks)
     out = []
     for i, (k, c) in enumerate(zip(ks, cs), 1):
-        clk = BASE + c
+        clk = BASE + c * scale
         if k == "b":
             b = obs.ev("OU[", clk)
         elif k == "e":
@@ -118,7 +126,8 @@ def observe(bdir, ks, cs, ring, wrap, want_bytes=False, timeout=120, prelude=Fal
     d = tempfile.mkdtemp(prefix="c-", dir=scratch_root())
     try:
         td = os.path.join(d, "ovni")
-        evs = encode(ks, cs, wrap)
+        scale = scale_of(ks, cs, ring)
+        evs = encode(ks, cs, wrap, scale)
         meta = obs.thread_meta(TID, TID, LOOM, cpus=[(0, 0)])
         pre_path = pre_bytes = None
         if prelude:
@@ -172,7 +181,7 @@ def observe(bdir, ks, cs, ring, wrap, want_bytes=False, timeout=120, prelude=Fal
             er = emu.ovniemu(bdir, td, ("-l",), timeout=timeout)
             ev = "ok" if er.accepted else "fail"
             evtext = er.text
-        rec = {"n": ring, "k": list(ks), "c": list(cs), "off": off, "oid": oid,
+        rec = {"n": ring, "k": list(ks), "c": list(cs), "off": off, "oid": oid, "_scale": scale,
                "st": st, "msg": bool(re.search(r"ERROR|FATAL", r1.text)),
                "fszo": len(dout), "fdiff": fdiff, "chk": chk, "st2": st2, "same2": same2,
                "emu": ev,
@@ -201,7 +210,7 @@ def show(ks, cs):
 
 def bundle(bdir, ks, cs, ring, wrap, extra=None):
     o = observe(bdir, ks, cs, ring, wrap, want_bytes=True)
-    b = {"case.json": {"ring": ring, "kinds": ks, "clocks": cs, "clock_base": BASE, "wrap_OHx_OHe": wrap,
+    b = {"case.json": {"ring": ring, "kinds": ks, "clocks": cs, "clock_base": BASE, "clock_scale": scale_of(ks, cs, ring), "wrap_OHx_OHe": wrap,
                        "run": "ovnisort -n %d <dir>; ovnisort -c <dir>; ovnisort -n %d <dir>; ovniemu -l <dir>"
                               % (ring, ring)},
          "observed.json": {k: v for k, v in o.items() if k not in ("_in", "_out")},
